@@ -21,8 +21,12 @@ injective, residue-name- and linktype-respecting induced-subgraph matches); `C02
 `C02_present_iff` / `C02_edges_iff` / `C02_attrs_last` / `C02_atoms_keys` say that the interactions /
 edges / atom attributes / atoms of the result are exactly what the blocks and the accepted applications
 define, later ones winning (`C02_fold_insert_last`); `C02_matchOrder_table` gives the meaning of the
-order tokens for all integers; `C02_dangling_equiv`, `C02_versions_distinct` and
-`C02_dangling_windows_partial` cover the dangling interactions of monomer .itp files.
+order tokens for all integers, `C02_check_relative_order` the whole of `_check_relative_order`;
+`C02_dangling_equiv`, `C02_versions_distinct` and
+`C02_dangling_windows` (every chain length) cover the dangling interactions of monomer .itp files;
+`C02_explicit_ok_iff` / `C02_explicit_iff` / `C02_explicit_edges_iff` / `C02_run_explicit` cover the links
+that address atoms by number (`by_atom_id`, `apply_explicit_link`): applied iff every addressed atom
+exists, later wins, edges between consecutive atoms, exception otherwise.
 
 Partial / not covered:
 * The enumeration order of the matches of ONE link is that of `Links.resMatches`; the real code uses the
@@ -32,10 +36,10 @@ Partial / not covered:
 * The candidate list contains the code's residue-name pre-filter (`Links.prefilter`): a link none of whose
   atoms names a residue is never a candidate (known finding `link-without-resname-skipped`; the oracle's
   `Links.specCands` has no such filter).
-* `C02_dangling_windows_partial`: general for the order check, bounded kernel test for the whole pipeline.
 -/
 import PolyplyVerif.Model.Links
 import PolyplyVerif.Proofs.Links
+import PolyplyVerif.Proofs.LinksWindows
 
 namespace PolyplyVerif.C02
 open PolyplyVerif PolyplyVerif.Links
@@ -291,6 +295,168 @@ theorem C02_atoms_keys (inp : Input) (x : Nat) :
 
 example : (applyLinks (exInput true)).atoms.map (·.1) = [0, 2, 3, 4, 5] := by decide
 
+/-! ### explicit links (`by_atom_id`: atoms addressed by number) -/
+
+/-- molecule of the examples: nodes 0..5, block bonds 0-1 (no version) and 2-3 (version 2) -/
+def exXSt : XSt :=
+  ⟨[(⟨"bonds", [0, 1], "i:0"⟩, ⟨["1", "0.3"], []⟩), (⟨"bonds", [2, 3], "i:2"⟩, ⟨["1", "0.3"], [("version", "i:2")]⟩)],
+   [(0, 1), (2, 3)]⟩
+
+/-- an explicit link: bond 1-2 (replaces the block bond), bond 2-5, angle 1-3-5 -/
+def exXs : List XIxn :=
+  [⟨"bonds", [some 1, some 2], ["1", "0.9"], []⟩, ⟨"bonds", [some 2, some 5], ["1", "0.5"], []⟩,
+   ⟨"angles", [some 1, some 3, some 5], ["2", "120"], []⟩]
+
+/-- **C02_explicit_ok_iff.**  The explicit links of a force field are applied (no exception) iff every
+one of their interactions addresses existing atoms: every atom token is a number `a ≥ 1` and `a - 1` is a
+node of the molecule.  Otherwise the FIRST interaction that does not ends the run — with `ValueError` if a
+token is not a number, with `IOError` if a numbered atom does not exist — whatever follows it. -/
+theorem C02_explicit_ok_iff (nodes : List Nat) (s : XSt) (xs : List XIxn) :
+    ((∃ s', applyExplicit nodes s xs = .ok s') ↔ ∀ i ∈ xs, i.wellAddressed nodes) ∧
+    (∀ pre i post, xs = pre ++ i :: post → (∀ j ∈ pre, j.wellAddressed nodes) → ¬ i.wellAddressed nodes →
+        applyExplicit nodes s xs = .error (if i.ints = none then .value else .io)) :=
+  ⟨applyExplicit_ok_iff nodes xs s, fun pre i post he hp hi => by
+    rw [he]; exact applyExplicit_first_error nodes pre i post s hp hi⟩
+
+example : (applyExplicit [0, 1, 2, 3, 4, 5] exXSt exXs).toOption.isSome = true ∧
+    xerr (applyExplicit [0, 1, 2, 3, 4, 5] exXSt (exXs ++ [⟨"bonds", [some 6, some 7], [], []⟩])) = some .io ∧
+    xerr (applyExplicit [0, 1, 2, 3, 4, 5] exXSt [⟨"bonds", [some 0, some 1], [], []⟩]) = some .io ∧
+    xerr (applyExplicit [0, 1, 2, 3, 4, 5] exXSt [⟨"bonds", [none, none], [], []⟩, ⟨"bonds", [some 6, some 7], [], []⟩]) = some .value := by
+  decide
+
+/-- **C02_explicit_iff (interactions).**  When the explicit links are applied, the interaction stored under
+`(section, atoms, version)` is the one of the LAST explicit interaction that addresses exactly these atoms
+(numbers lowered by one) with that version; if there is none, it is what the molecule had after the
+flush.  Nothing else changes: every other key keeps its value, no key disappears. -/
+theorem C02_explicit_iff (nodes : List Nat) (s s' : XSt) (xs : List XIxn)
+    (h : applyExplicit nodes s xs = .ok s') (k : XKey) :
+    lookupKV s'.ixns k = (lastFor (xs.map XIxn.contrib) k).or (lookupKV s.ixns k) := by
+  have hw := (applyExplicit_ok_iff nodes xs s).mp ⟨s', h⟩
+  rw [applyExplicit_of_wellAddressed nodes xs s hw] at h
+  cases h
+  exact fold_insert_last _ _ _
+
+example : (applyExplicit [0, 1, 2, 3, 4, 5] exXSt exXs).toOption.map (fun s' =>
+      (lookupKV s'.ixns ⟨"bonds", [0, 1], "i:0"⟩, lookupKV s'.ixns ⟨"bonds", [2, 3], "i:2"⟩,
+       lookupKV s'.ixns ⟨"angles", [0, 2, 4], "i:0"⟩)) =
+    some (some ⟨["1", "0.9"], []⟩, some ⟨["1", "0.3"], [("version", "i:2")]⟩, some ⟨["2", "120"], []⟩) := by
+  decide
+
+/-- **C02_explicit_edges_iff.**  `{a,b}` is an edge afterwards iff it was one before or `a` and `b` are
+consecutive atoms of an explicit interaction. -/
+theorem C02_explicit_edges_iff (nodes : List Nat) (s s' : XSt) (xs : List XIxn)
+    (h : applyExplicit nodes s xs = .ok s') (a b : Nat) :
+    hasEdge s'.edges a b = true ↔
+      hasEdge s.edges a b = true ∨
+      ∃ i ∈ xs, ∃ pre post, i.nodes = pre ++ a :: b :: post ∨ i.nodes = pre ++ b :: a :: post := by
+  have hw := (applyExplicit_ok_iff nodes xs s).mp ⟨s', h⟩
+  rw [applyExplicit_of_wellAddressed nodes xs s hw] at h
+  cases h
+  simp only []
+  rw [hasEdge_foldl_addEdge, Bool.or_eq_true, hasEdge_flatMap]
+  simp only [hasEdge_consecutive_iff]
+
+example : (applyExplicit [0, 1, 2, 3, 4, 5] exXSt exXs).toOption.map (fun s' =>
+      (hasEdge s'.edges 1 4, hasEdge s'.edges 4 2, hasEdge s'.edges 0 4)) = some (true, true, false) := by
+  decide
+
+/-- **C02_run_explicit.**  The whole of `run_molecule` up to `expand_excl`: it succeeds iff every explicit
+interaction addresses, by number, atoms of the mapped molecule that no link scheduled for removal; then
+the interactions are those of `C02_iff`, overridden by the explicit ones (later wins). -/
+theorem C02_run_explicit (inp : Input) (xs : List XIxn) :
+    ((∃ s', runMolecule inp xs = .ok s') ↔
+      ∀ i ∈ xs, ∃ as, i.ints = some as ∧
+        ∀ a ∈ as, 1 ≤ a ∧ (a - 1).toNat ∈ inp.atoms.map (·.key) ∧ (removed inp).contains (a - 1).toNat = false) ∧
+    ∀ s', runMolecule inp xs = .ok s' → ∀ k,
+      lookupKV s'.ixns k = (lastFor (xs.map XIxn.contrib) k).or (lookupKV (applyLinks inp).xst.ixns k) := by
+  unfold runMolecule
+  refine ⟨?_, fun s' h k => C02_explicit_iff _ _ _ _ h k⟩
+  rw [applyExplicit_ok_iff]
+  unfold XIxn.wellAddressed
+  simp only [C02_atoms_keys]
+
+example : (runMolecule (exInput true) [⟨"bonds", [some 1, some 6], ["1", "0.7"], []⟩]).toOption.map
+      (fun s' => lookupKV s'.ixns ⟨"bonds", [0, 5], "i:0"⟩) = some (some ⟨["1", "0.7"], []⟩) ∧
+    xerr (runMolecule (exInput true) [⟨"bonds", [some 1, some 2], ["1", "0.7"], []⟩]) = some .io := by
+  decide
+
+/-! ### literals of the link machinery read from the source; the `[ edges ]` directive -/
+
+/-- **C02_link_tables** (about the lists TRANSLATED from apply_links.py / ff_parser_sub.py on every run).
+The list of link-atom attributes that `match_link_and_residue_atoms` does NOT compare with the residue atoms,
+as the current source writes it, is the one the model and the specification use (as a set) — bookkeeping only
+(`order`, `replace`, `resid`, `charge_group`): atom name and residue name ARE compared ("every link atom
+identifies exactly one atom").  The `[ edges ]` directive never turns `atomname`/`order`/`resname` into an edge
+label and does keep `linktype`.  Two link interactions are "the same" when atoms and version agree, the version
+defaulting to 1 (vermouth's `add_or_replace_interaction`, used by the explicit links, defaults it to 0: `verTok`). -/
+theorem C02_link_tables :
+    LinkTables.matchIgnore.Perm matchIgnore ∧
+    "atomname" ∉ LinkTables.matchIgnore ∧ "resname" ∉ LinkTables.matchIgnore ∧
+    "linktype" ∉ LinkTables.edgePoppedKeys ∧
+    "atomname" ∈ LinkTables.edgePoppedKeys ∧ "order" ∈ LinkTables.edgePoppedKeys ∧ "resname" ∈ LinkTables.edgePoppedKeys ∧
+    LinkTables.versionDefault = 1 := by
+  decide
+
+/-- **C02_edge_label.**  `_parse_edges_new` adds an edge iff the section is not a negated one, nothing but
+`atomname`/`order`/`resname` is written after the FIRST atom and — in a modification — the first character of
+both references names an existing atom; the edge then joins the two references as written and carries exactly
+the attributes written after the SECOND atom minus `atomname`/`order`/`resname` (so `{"linktype": …}` after the
+second atom is the edge label `_linktype_match` compares).  Otherwise: `KeyError` in the modification case,
+`IOError` in the other two. -/
+theorem C02_edge_label (ct : String) (negate : Bool) (nodes : List String) (a b : EdgeAtom) (x y : String) (attrs : MAttrs) :
+    parseEdgesNew ct negate nodes a b = .edge x y attrs ↔
+      negate = false ∧ edgeExtra a = [] ∧
+      (ct ≠ "modification" ∨ (firstChar a.ref ∈ nodes ∧ firstChar b.ref ∈ nodes)) ∧
+      x = a.ref ∧ y = b.ref ∧ attrs = edgeExtra b := by
+  unfold parseEdgesNew
+  cases negate
+  · by_cases h1 : (edgeExtra a).isEmpty = true
+    · have h1' : edgeExtra a = [] := List.isEmpty_iff.mp h1
+      by_cases h2 : (ct == "modification" && !(nodes.contains (firstChar a.ref) && nodes.contains (firstChar b.ref))) = true
+      · simp only [Bool.false_eq_true, if_false, h1, Bool.not_true, h2, if_true]
+        simp only [Bool.and_eq_true, beq_iff_eq, Bool.not_eq_true', Bool.and_eq_false_iff, List.contains_eq_mem,
+          decide_eq_false_iff_not] at h2
+        constructor
+        · intro hc; cases hc
+        · rintro ⟨_, _, h3, _⟩
+          rcases h3 with h3 | ⟨h3, h4⟩
+          · exact absurd h2.1 h3
+          · rcases h2.2 with h5 | h5
+            · exact absurd h3 h5
+            · exact absurd h4 h5
+      · simp only [Bool.false_eq_true, if_false, h1, Bool.not_true, h2, EdgeParse.edge.injEq]
+        simp only [Bool.and_eq_true, beq_iff_eq, Bool.not_eq_true', Bool.and_eq_false_iff, List.contains_eq_mem,
+          decide_eq_false_iff_not, not_and, not_or, Classical.not_not] at h2
+        constructor
+        · rintro ⟨hx, hy, ha⟩
+          refine ⟨trivial, h1', ?_, hx.symm, hy.symm, ha.symm⟩
+          by_cases hct : ct = "modification"
+          · right
+            have := h2 hct
+            exact Classical.byContradiction (fun hn => by
+              rcases Classical.not_and_iff_not_or_not.mp hn with h | h
+              · exact h (Classical.byContradiction (fun hh => by
+                  have := this; simp_all))
+              · simp_all)
+          · exact Or.inl hct
+        · rintro ⟨_, _, _, hx, hy, ha⟩; exact ⟨hx.symm, hy.symm, ha.symm⟩
+    · have h1' : edgeExtra a ≠ [] := fun h => h1 (List.isEmpty_iff.mpr h)
+      simp only [Bool.false_eq_true, if_false, h1, Bool.not_false, if_true]
+      constructor
+      · intro hc; cases hc
+      · rintro ⟨_, h, _⟩; exact absurd h h1'
+  · simp only [if_true]
+    constructor
+    · intro hc; cases hc
+    · rintro ⟨h, _⟩; cases h
+
+example : parseEdgesNew "link" false [] ⟨"BB", [("resname", "s:A")]⟩ ⟨"+BB", [("linktype", "s:x"), ("resname", "s:A")]⟩ =
+      .edge "BB" "+BB" [("linktype", "s:x")] ∧
+    parseEdgesNew "link" false [] ⟨"BB", [("a", "i:1")]⟩ ⟨"+BB", []⟩ = .ioError ∧
+    parseEdgesNew "block" true ["BB", "SC"] ⟨"BB", []⟩ ⟨"SC", []⟩ = .ioError ∧
+    parseEdgesNew "modification" false ["BB", "SC"] ⟨"BB", []⟩ ⟨"SC", []⟩ = .keyError ∧
+    parseEdgesNew "modification" false ["B", "S"] ⟨"B", []⟩ ⟨"S", []⟩ = .edge "B" "S" [] := by decide
+
 /-! ### `match_order` -/
 
 /-- `matchOrder` (= vermouth's `match_order`) has the declarative meaning of the order tokens, for all
@@ -320,6 +486,24 @@ theorem C02_matchOrder_table :
 
 example : matchOrder (.num 0) 4 (.num 2) 6 = true ∧ matchOrder (.num 0) 4 (.rel 2) 9 = true ∧
     matchOrder (.rel 1) 5 (.rel 2) 3 = false ∧ matchOrder (.star 1) 5 (.star 2) 5 = false := by decide
+
+/-- **C02_check_relative_order.**  `_check_relative_order(resids, orders)` as written in apply_links.py
+(dictionary loop + `match_order` on every 2-combination), for ANY list of (order, resid) pairs, also with
+repeated order tokens: it accepts iff no order token is paired with two different resids and `match_order`
+holds for every two pairs with different tokens.  With pairwise distinct tokens — the residues of a
+residue-level link, which is how `run_molecule` calls it — it is exactly the pairwise check
+`checkRelativeOrder` the model's `tryCand` uses. -/
+theorem C02_check_relative_order (l : List (Order × Int)) :
+    (checkRelativeOrderPy l = true ↔
+      (∀ p ∈ l, ∀ q ∈ l, p.1 = q.1 → p.2 = q.2) ∧
+      ∀ p ∈ l, ∀ q ∈ l, p.1 ≠ q.1 → matchOrder p.1 p.2 q.1 q.2 = true) ∧
+    ((l.map (·.1)).Nodup → checkRelativeOrderPy l = checkRelativeOrder l) :=
+  ⟨checkRelativeOrderPy_iff l, checkRelativeOrderPy_of_nodup l⟩
+
+example : checkRelativeOrderPy [(.num 0, 4), (.num 1, 5), (.num 0, 4)] = true ∧
+    checkRelativeOrderPy [(.num 0, 4), (.num 1, 5), (.num 0, 6)] = false ∧
+    checkRelativeOrderPy [(.num 0, 4), (.star 1, 4)] = false ∧
+    checkRelativeOrderPy [(.rel 1, 4), (.rel 2, 9), (.rel (-1), 2)] = true := by decide
 
 /-! ### dangling interactions of monomer `.itp` files -/
 
@@ -366,45 +550,55 @@ example : splitDangling ["BB", "SC1"] [⟨"bonds", [0, 1], ["1"]⟩, ⟨"bonds",
        [("dihedrals", ["SC1", "+BB", "+SC1", "++BB"], ["9", "a"]), ("dihedrals", ["SC1", "+BB", "+SC1", "++BB"], ["9", "b"])]⟩],
      [⟨"bonds", [0, 1], ["1"]⟩]) := by decide
 
-/-- chain of `N` one-atom residues named A (keys 0..N-1, resid = key + 1) -/
-def chainInput (N : Nat) (links : List Link) : Input :=
-  { atoms := (List.range N).map (fun i => ⟨i, i + 1, [("atomname", "s:BB"), ("resname", "s:A")]⟩),
-    edges := [], ixns := [], molMeta := [],
-    res := (List.range N).map (fun i => ⟨i, i + 1, [("resname", "s:A")], [(i, [("atomname", "s:BB"), ("resname", "s:A")])]⟩),
-    redges := (List.range (N - 1)).map (fun i => (i, i + 1, none)),
-    links := links }
-
-/-- the link a dangling angle-like interaction over `k+1` consecutive residues stands for: atoms `BB`, `+BB`, … bonded in a path -/
-def pathLink (k : Nat) : Link :=
-  let key := fun (i : Nat) => plusPrefix i ++ "BB"
-  { atoms := (List.range (k + 1)).map (fun i => ⟨key i, .num i, [("atomname", .eq "s:BB"), ("resname", .eq "s:A")], [], false⟩),
-    ixns := [⟨"x", (List.range (k + 1)).map key, 1, ["p"], []⟩],
-    edges := (List.range k).map (fun i => (key i, key (i + 1), none)),
-    nonEdges := [], patterns := [], molMeta := [] }
-
-/-- the windows `[j, j+1, …, j+k]` that fit into `0..N-1` -/
-def windows (N k : Nat) : List (List Nat) := (List.range (N - k)).map (fun j => (List.range (k + 1)).map (· + j))
-
 def acceptedWindows (N k : Nat) : List (List Nat) :=
   (evs (chainInput N [pathLink k])).map (fun e => (pathLink k).atoms.map (fun a => AMap.get e.amap a.key))
 
-/-- **C02_dangling_windows_partial** (stretch; PARTIAL).
-General part, all inputs: a link whose residues carry numeric orders (what dangling interactions give:
+/-- **C02_dangling_windows** ("present for every window that fits inside the chain, absent at its end"),
+for EVERY chain length `N` and span `k`.
+(1) General, all inputs: a link whose residues carry numeric orders (what dangling interactions give:
 0, +1, +2, …) passes the relative-order check exactly for the residue tuples whose resids are the orders
-shifted by ONE constant — on a chain numbered 1..N these are the windows `j, j+1, …, j+k`, which exist
-iff `j + k ≤ N` ("present for every window that fits inside the chain, absent at its end").
-Bounded part, a TEST (kernel evaluation, `decide +kernel`, not a proof for all N): for every chain length
-`N ≤ 12` and span `k ≤ 3` the whole model pipeline (`resMatches`, order check, atom matching, acceptance)
-applied to the chain of one-atom residues and the path-shaped link accepts exactly those windows.
-Missing for the full statement: the characterisation of induced matches of a path in a path for all N. -/
-theorem C02_dangling_windows_partial :
+shifted by ONE constant.
+(2) The whole model pipeline (`resMatches` standing for VF2, order check, atom matching, non-edge and
+pattern vetoes, acceptance) applied to the chain of `N` one-atom residues (`chainInput`) and the path-shaped
+link over `k+1` consecutive residues (`pathLink k`: atoms `BB`, `+BB`, `++BB`, … bonded in a path) accepts
+exactly the windows `j, j+1, …, j+k` with `j + k < N`: a residue tuple is an accepted application iff it is
+such a window.  No bound on `N` or `k` (the former kernel test for `N ≤ 12` is gone): the order check forces
+consecutive resids (`order_forces_window`), and every window is an induced, name-respecting match with
+unique atoms (`window_isResMatch`, `window_matchAtoms`; Proofs/LinksWindows.lean). -/
+theorem C02_dangling_windows :
     (∀ l : List (Int × Int), checkRelativeOrder (l.map (fun p => (Order.num p.1, p.2))) = true ↔
         ∀ p ∈ l, ∀ q ∈ l, q.1 - p.1 = q.2 - p.2) ∧
-    ∀ N ∈ List.range 13, ∀ k ∈ List.range 4, ∀ N ∈ List.range 13, ∀ k ∈ List.range 4,
-    (acceptedWindows N k).all (fun w => (windows N k).contains w) = true ∧
-    (windows N k).all (fun w => (acceptedWindows N k).contains w) = true ∧
-    (acceptedWindows N k).length = (windows N k).length := by
-  exact ⟨numeric_orders_offsets, by decide +kernel⟩
+    ∀ (N k : Nat) (w : List Nat), w ∈ acceptedWindows N k ↔ w ∈ windows N k := by
+  refine ⟨numeric_orders_offsets, fun N k w => ?_⟩
+  rw [mem_windows_iff]
+  unfold acceptedWindows
+  rw [List.mem_map]
+  constructor
+  · rintro ⟨e, he, rfl⟩
+    obtain ⟨pre, m, post, hc, ho, hma, _, _⟩ := (C02_accepted_iff _ e).mp he
+    have hmem : (e.link, m) ∈ cands (chainInput N [pathLink k]) := by rw [hc]; simp
+    obtain ⟨hl, _, hres⟩ := (C02_cands_iff _ _ _).mp hmem
+    have hl : e.link = pathLink k := by simpa [chainInput] using hl
+    rw [hl] at ho hma hres
+    obtain ⟨j, hj, rfl⟩ := order_forces_window N k [pathLink k] m hres ho
+    rw [window_matchAtoms N k j _ hj] at hma
+    injection hma with hma
+    exact ⟨j, hj, by rw [← hma]; exact window_atoms_map k j⟩
+  · rintro ⟨j, hj, rfl⟩
+    have hmem : (pathLink k, window k j) ∈ cands (chainInput N [pathLink k]) :=
+      (C02_cands_iff _ _ _).mpr ⟨by simp [chainInput], chain_prefilter N k _ (by omega), window_isResMatch N k j _ hj⟩
+    obtain ⟨pre, post, hc⟩ := List.append_of_mem hmem
+    refine ⟨⟨pathLink k, wamap k j⟩, ?_, window_atoms_map k j⟩
+    exact (C02_accepted_iff _ _).mpr ⟨pre, window k j, post, hc, window_order N k j _ hj,
+      window_matchAtoms N k j _ hj, pathLink_nonEdgesOK k _ _, Or.inl (pathLink_patterns k)⟩
+
+
+/-- in particular nothing is applied when the span does not fit (`N ≤ k`), whatever `N` -/
+example (N k : Nat) (h : N ≤ k) (w : List Nat) : w ∉ acceptedWindows N k := by
+  rw [C02_dangling_windows.2, windows, show N - k = 0 by omega]; simp
+
+example : [7, 8, 9] ∈ acceptedWindows 1000 2 :=
+  (C02_dangling_windows.2 1000 2 [7, 8, 9]).mpr (List.mem_map.mpr ⟨7, List.mem_range.mpr (by omega), by decide⟩)
 
 example : windows 4 1 = [[0, 1], [1, 2], [2, 3]] ∧ (acceptedWindows 3 1).length = 2 ∧ (acceptedWindows 3 1).contains [1, 2] = true := by decide
 
